@@ -46,7 +46,7 @@ func (mc *MethodCall) Evaluate(dc *context.DataContext, Vars map[string]reflect.
 	} else {
 		av, err := mc.MethodArgs.Evaluate(dc, Vars)
 		if err != nil {
-			return reflect.ValueOf(nil), err
+			return reflect.ValueOf(nil), errors.New(fmt.Sprintf("line %d, column %d, code: %s, %+v", mc.LineNum, mc.Column, mc.Code, err))
 		}
 		argumentValues = av
 	}
